@@ -175,7 +175,8 @@ class State:
                 continue
             state_var_name = f"{parts[0]}.{parts[1]}"
             if state_var_name not in cls.notify or queue not in cls.notify[state_var_name]:
-                return
+                # eg, "d.e" and "d.e.old" share one entry; keep going so every other entity is released too
+                continue
             del cls.notify[state_var_name][queue]
 
     @classmethod
